@@ -677,8 +677,13 @@ func (se *SpecEnv) call(e *SCall) SVal {
 		}
 		return SVal{T: eq(x, nilOf(x.Sort))}
 	case "closed":
-		x := se.value(se.eval(e.Args[0]))
-		h := ex.get(se.st, "G|closed", arraySort(SRef, SBool))
+		xv := se.eval(e.Args[0])
+		x := se.value(xv)
+		key := "G|closed"
+		if xv.A != nil && xv.A.IsField {
+			key = fmt.Sprintf("G|closed|%s|%d", xv.A.SKey, xv.A.Field)
+		}
+		h := ex.get(se.st, key, arraySort(SRef, SBool))
 		return SVal{T: sel(h, x, SBool)}
 	case "base", "off":
 		// backing array and offset of a slice value
